@@ -517,6 +517,11 @@ APALACHE = {
     "C05": {"module": "Ind_C05.tla", "init": "IndInit", "inv": "IndInv", "witnesses": [("NoThreeRecords", 0), ("NeverMerged", 0)],
             "what": "IndInv /\\ AddRecord => IndInv' (one owner per prefix, the four lookup structures are what the records denote)",
             "bounds": "<=3 records, <=2 synonyms per side, strings = unbounded integers, casefold = x div 2"},
+    "C09": {"module": "Ind_C09.tla", "init": "IndInit", "inv": "IndInv", "witnesses": [("NeverMerged", 1), ("NeverRaised", 1), ("NeverCaseMerge", 1)],
+            "what": "one step of chain (add_record with merge=True) preserves: one owner per prefix, known prefixes = those of the records consumed, "
+                    "records of an input stay together, canonical pairs come from inputs and are never changed by a later record, "
+                    "no two records equal up to case in case-insensitive mode; a bridging record raises and changes nothing",
+            "bounds": "<=3 accumulated records, <=2 synonyms per side, strings = unbounded integers, casefold = x div 2"},
     "C12": {"module": "Ind_C12.tla", "init": "Init", "inv": "Inv", "witnesses": [("NeverRepointed", 1), ("NeverClash", 1)],
             "what": "the declarative statement of C12 on the result of remap_uri_prefixes / rewire",
             "bounds": "<=3 records, <=2 synonyms per side, every injective non-ambiguous mapping of <=2 pairs, strings = unbounded integers"},
@@ -645,6 +650,10 @@ def check(pid, tier, seed):
     models, hists = [], []
     violations, known, lines = 0, [], []
     cex_ops = []
+    # the symbolic check (single-threaded SMT) runs next to the model checking
+    from concurrent.futures import ThreadPoolExecutor
+    apa_pool = ThreadPoolExecutor(1)
+    apa_future = apa_pool.submit(apalache, pid, tier) if pid in APALACHE else None
     for model, invs, extra in world.PLAN[pid]:
         # thorough: the large instance is model-checked without a dump; the behaviours to replay come from
         # the quick instance (whose dump is small enough to parse), all signature classes of it
@@ -660,7 +669,6 @@ def check(pid, tier, seed):
                 if not res["cex"]:
                     raise MachineryError(f"TLC reports {res['violated']} violated on {model} but no counterexample could be parsed")
                 cex_ops.append((model, res["violated"], world.conc_hist(res["cex"], world.CONCRETE["ascii"])))
-    apa = apalache(pid, tier) if pid in APALACHE else None
     sim_stats = None
     sim_ops = []
     if pid == "C10" or (tier == "thorough" and pid in ("C05", "C09", "C11", "C12")):
@@ -719,6 +727,8 @@ def check(pid, tier, seed):
                 if violations <= 10:
                     path = replay_file(pid, tid, l, clause, [{"k": "repo-test-trace", "trace": tid, "event": rb["traces"][tid - 1]["events"][l - 1]["op"]}], 0, {})
                     lines.append(f"VIOLATION property={pid} replay={path}   # clause {key} in trace {tid} recorded from the repository's own tests")
+    apa = apa_future.result() if apa_future else None
+    apa_pool.shutdown()
     n_ans = sum(len(r["a"]) for t in batch["traces"] for e in t["events"] for r in e["pt"] + e["ppt"])
     n_events = sum(len(t["events"]) for t in batch["traces"])
     kinds = {}
